@@ -143,8 +143,10 @@ func setupRoutes(module *ast.Module, filePath string, forceInterpreter ...bool) 
 	setCompiledTypeDefs(module)
 
 	// Try to compile routes if using compiler mode
+	var routeBytecode map[*ast.Route][]byte
 	if useCompiler {
 		c := compiler.NewCompilerWithOptLevel(compiler.OptBasic)
+		routeBytecode = make(map[*ast.Route][]byte)
 		for _, item := range module.Items {
 			if route, ok := item.(*ast.Route); ok {
 				bytecode, compileErr := c.CompileRoute(route)
@@ -159,6 +161,7 @@ func setupRoutes(module *ast.Module, filePath string, forceInterpreter ...bool) 
 					break
 				}
 				compiledRoutes[compiledRouteKey(route)] = bytecode
+				routeBytecode[route] = bytecode
 			}
 		}
 	}
@@ -178,7 +181,12 @@ func setupRoutes(module *ast.Module, filePath string, forceInterpreter ...bool) 
 	if useCompiler {
 		for _, item := range module.Items {
 			if route, ok := item.(*ast.Route); ok {
-				bytecode := compiledRoutes[compiledRouteKey(route)]
+				// Each declaration runs the bytecode compiled from its own body.
+				// compiledRoutes is keyed by method and path, so when a module
+				// declares the same method and path twice it holds the last
+				// body only - registering that under the first declaration would
+				// run a body behind the middleware (auth, rate limit) of another.
+				bytecode := routeBytecode[route]
 				regErr := registerCompiledRoute(router, route, bytecode, wsServer.GetHub())
 				if regErr != nil {
 					printWarning(fmt.Sprintf("Failed to register route %s: %v", route.Path, regErr))
